@@ -68,8 +68,6 @@ def attribute(plan: dict, mism: list[str]) -> str | None:
     text = " | ".join(mism)
     if f["cookie_param_supplied"] and "cookies" in text:
         return "F11"
-    if f["nonstr_header_supplied"] and "Header value must be str or bytes" in text:
-        return "F39"
     if f["multi_content"] and f["has_query_or_header"] and ("query" in text or "headers" in text):
         return "F12"
     if f["multi_content"] and "One of the content-type parameters must be provided" in text and f.get("optional_body_omitted"):
